@@ -150,9 +150,16 @@ def run_one(case, mod=None):
     viols = []
     if res.status == 'ok':
         try:
+            eff = bool(res.sim is not None and
+                       res.sim.stats.get('txwin_effective'))
             for v in mod.evaluate(case, res):
+                sig = (v[2] if len(v) > 2 else '')
+                if eff:
+                    # a transaction of this run was parked before its first
+                    # write while another one committed (overlap window)
+                    sig = (sig + ' overlap_effective').strip()
                 viols.append({'invariant': v[0], 'message': v[1][:3000],
-                              'signature': (v[2] if len(v) > 2 else '')})
+                              'signature': sig})
         except Exception as e:
             res.status = 'harness_error'
             res.reason = 'oracle: %s\n%s' % (e, traceback.format_exc())
